@@ -21,7 +21,7 @@ MaxBad = 3000
 CHECK_DEADLOCK FALSE
 POSTCONDITION Post
 """
-NENC = 11
+NENC = 18
 
 
 def js(x):
